@@ -465,6 +465,12 @@ def evaluate(ctx, cases: List[Tuple[str, Dict[str, Any]]], report: bool = True) 
         if why is not None:
             failing.append((c, r, why))
             if report:
+                if not ctx.violations and key_of(c) not in ctx._known:  # the first concrete failing input is minimised
+                    small = shrink(ctx, c)
+                    if small is not c:
+                        again = evaluate(ctx, [("shrunk", small)], report=False)
+                        if again:
+                            c, r, why = again[0]
                 ctx.violation(key=key_of(c), what=why, case=c, observed=brief(r), how=HOW[c["kind"]])
         if dis is not None and report:
             ctx.disagreement(c["kind"], c, dis[0], dis[1])
